@@ -223,6 +223,12 @@ func pipeScript(c PipeCfg) string {
 	}
 	fmt.Fprintf(&b, "producer = func() {\n for v in [%s] {\n  c0 <- v\n }\n close(c0)\n}\n", strings.Join(items, ", "))
 	switch c.Shape {
+	case "fn4elem":
+		// the increment is read from a list element at the go statement; the spawner overwrites that element afterwards
+		b.WriteString("inc = [10]\nstage = func(inch, outch, incv, tag) {\n for v in inch {\n  outch <- v + incv\n }\n close(outch)\n}\n")
+	case "goanon":
+		// the stage is a function literal started by a go statement inside a helper: every call of the helper starts ITS closure
+		b.WriteString("spawn = func(inch, outch) {\n go func() {\n  for v in inch {\n   outch <- v + 10\n  }\n  close(outch)\n }()\n}\n")
 	case "fn5":
 		b.WriteString("stage = func(tag, inch, outch, inc, zero) {\n for v in inch {\n  outch <- v + inc + zero\n }\n close(outch)\n}\n")
 	case "fnvar":
@@ -230,7 +236,16 @@ func pipeScript(c PipeCfg) string {
 	default:
 		b.WriteString("stage = func(tag, inch, outch) {\n for v in inch {\n  outch <- v + 10\n }\n close(outch)\n}\n")
 	}
-	if c.Shape == "fn5" || c.Shape == "fnvar" {
+	if c.Shape == "fn4elem" {
+		for k := 1; k <= c.NS; k++ {
+			fmt.Fprintf(&b, "go stage(c%d, c%d, inc[0], %d)\n", k-1, k, k)
+		}
+		b.WriteString("inc[0] = -1000\n")
+	} else if c.Shape == "goanon" {
+		for k := 1; k <= c.NS; k++ {
+			fmt.Fprintf(&b, "spawn(c%d, c%d)\n", k-1, k)
+		}
+	} else if c.Shape == "fn5" || c.Shape == "fnvar" {
 		for k := 1; k <= c.NS; k++ {
 			if c.Shape == "fn5" {
 				fmt.Fprintf(&b, "go stage(%d, c%d, c%d, 10, 0)\n", k, k-1, k)
